@@ -214,14 +214,6 @@ def stepModel (m : SessModel) (b : Block) : StepOut :=
       fin s (unitResultText r)
     | _ => fin s "unsupported"
 
-/-- The address an event text belongs to (`-` for WaitRecommendation). -/
-def eventAddr (e : String) : String :=
-  match e.splitOn ":" with
-  | ["DesyncDetected", _, _, _, a] => a
-  | "WaitRecommendation" :: _ => "-"
-  | _ :: a :: _ => a
-  | _ => "?"
-
 /-- Events are compared per remote address (order within an address is kept): the interleaving of
 different addresses inside one poll follows the session's `HashMap` iteration order (C17 is about
 exactly this projection). DesyncDetected events of one address are compared as a set for the
